@@ -222,13 +222,14 @@ theorem evalElem_num [LawfulFmt K] (T : Tables K) (n : Num K) :
   | par p => exact absurd h (h1 p)
   | _ => rw [h] at h2; simp only [evalElem, h2]; rfl
 
-theorem arrEffect_rows [LawfulFmt K] (T : Tables K) (name : String) (dt : DType) (nrows : List (List (SExpr K)))
+theorem arrEffect_rows [LawfulFmt K] (tdm : Bool) (T : Tables K) (name : String) (dt : DType) (nrows : List (List (SExpr K)))
     (r c : Nat) (hr : nrows.length = r) (hr0 : 0 < r) (hc : ∀ row ∈ nrows, row.length = c)
     (hdt : dtypeOf (varTypeOf dt) = some dt)
-    (hk : ∀ row ∈ nrows, ∀ e ∈ row, numOfKind dt e = true) :
-    arrEffect false T (varTypeOf dt) ⟨0, 0⟩ (plainName name) (some [toString r, toString c])
+    (hk : ∀ row ∈ nrows, ∀ e ∈ row, numOfKind dt e = true)
+    (shape : Option (List String)) (hshape : shape = none ∨ shape = some [toString r, toString c]) :
+    arrEffect tdm T (varTypeOf dt) ⟨0, 0⟩ (plainName name) shape
       (.rows (nrows.map fun row => row.map exprOfS)) =
-    .ok { T with vars := dictSet T.vars name (.arr dt r c (nrows.flatMap id)) } := by
+    .ok (finishArr tdm name T (.arr dt r c (nrows.flatMap id))) := by
   have hp : (nrows.map fun row => row.map (exprOfS (K := K))).flatMap (fun r => r.flatMap elemPars) = [] := by
     simp only [List.flatMap_eq_nil_iff, List.mem_map, forall_exists_index, and_imp]
     intro l row hrow hl e he
@@ -258,9 +259,10 @@ theorem arrEffect_rows [LawfulFmt K] (T : Tables K) (name : String) (dt : DType)
     subst hl
     obtain ⟨s, _, rfl⟩ := List.mem_map.mp hx
     rfl
-  have hasm : assemble dt (some [digitsToNat (toString r), digitsToNat (toString c)]) (nrows.map fun row => row.map id) =
-      .ok (.arr dt r c (nrows.flatMap id)) := by
-    simp only [List.map_id_fun', List.map_id', id, List.map_id, digitsToNat_toString]
+  have hasm : ∀ shp : Option (List Nat), shp = none ∨ shp = some [r, c] →
+      assemble dt shp (nrows.map fun row => row.map id) = .ok (.arr dt r c (nrows.flatMap id)) := by
+    intro shp hshp
+    simp only [List.map_id_fun', List.map_id', id, List.map_id]
     unfold assemble
     cases nrows with
     | nil => simp at hr; omega
@@ -270,11 +272,17 @@ theorem arrEffect_rows [LawfulFmt K] (T : Tables K) (name : String) (dt : DType)
         intro x hx
         rw [hc x (List.mem_cons_of_mem _ hx), hc r0 (by simp)]
       have h0 : r0.length = c := hc r0 (by simp)
-      simp [hall, hr, h0]
+      rcases hshp with h | h <;> simp [h, hall, hr, h0]
+  have hshp : shape.map (·.map digitsToNat) = none ∨ shape.map (·.map digitsToNat) = some [r, c] := by
+    rcases hshape with h | h
+    · left; simp [h]
+    · right
+      subst h
+      simp only [Option.map_some, List.map_cons, List.map_nil, digitsToNat_toString]
   unfold arrEffect
   simp only [checkName, plainName, hp, he, liftE, hdt, bind, Except.bind, hcast, hnone, List.map_nil, List.append_nil,
-    List.length_nil, List.map_cons, Option.map_some, hasm, List.isEmpty_nil, if_true]
-  simp [finishArr]
+    List.length_nil, hasm _ hshp, List.isEmpty_nil, if_true]
+  simp
 
 /-! ### rows of a flat array -/
 
@@ -338,13 +346,14 @@ theorem arrEffect_decl [LawfulFmt K] (o : SetOrder Int) (T : Tables K) (d : ArrD
     have : 0 < d.r * d.c := Nat.mul_pos hd.r_pos hd.c_pos
     omega
   obtain ⟨e0, he0⟩ := List.exists_mem_of_ne_nil _ hne
-  have hrows := arrEffect_rows T d.name d.dt (chunk d.c d.r d.flat) d.r d.c (chunk_length _ _ _) hd.r_pos
+  have hrows := arrEffect_rows false T d.name d.dt (chunk d.c d.r d.flat) d.r d.c (chunk_length _ _ _) hd.r_pos
     (chunk_row_len _ _ _ hlen) (numOfKind_dtype _ e0 (hd.kind e0 he0))
-    (fun row hrow e he => hd.kind e (chunk_mem _ _ _ row hrow e he))
+    (fun row hrow e he => hd.kind e (chunk_mem _ _ _ row hrow e he)) (some [toString d.r, toString d.c]) (Or.inr rfl)
   rw [chunk_flat _ _ _ hlen] at hrows
   have hty : declType d.dt d.flat = varTypeOf d.dt := by
     have := numOfKind_dtype _ e0 (hd.kind e0 he0)
     cases hdt : d.dt <;> simp_all [declType, varTypeOf, dtypeOf]
   simp only [ArrDecl.item, execItem, execArr, hty, hrows]
+  simp [finishArr]
 
 end Blackbird
